@@ -276,6 +276,18 @@ def allocAligned (s : St) (len maxOff : Nat) : St × Rc × Nat :=
 
 def uint64Max : Nat := 2 ^ 64 - 1
 
+/-- the part of `_fsm_init_lw` that builds the new bitmap: old content (or zeros) followed by zeros, the bitmap's own
+    blocks set (and the header blocks on first use), index rebuilt, meta written -/
+def installBitmap (s : St) (bmoffB bmlenB : Nat) : St :=
+  let oldLen := s.bmlen
+  let bits := if oldLen ≠ 0 then s.bits ++ Array.replicate ((bmlenB - oldLen) * 8) false
+              else Array.replicate (bmlenB * 8) false
+  let s := { s with bits := bits, bmoff := bmoffB, bmlen := bmlenB }
+  let s := { s with bits := setRange s.bits (bmoffB / bsz s) (bmlenB / bsz s) true }
+  let s := if oldLen = 0 then { s with bits := setRange s.bits 0 (hdrBlk s) true } else s
+  let s := loadTree s
+  { s with saved := s.stats }    -- `_fsm_write_meta_lw`
+
 /-- `_fsm_init_lw`: install a bitmap of `bmlenB` bytes at byte offset `bmoffB`, moving the old one -/
 def initLw (s : St) (bmoffB bmlenB : Nat) : St × Rc :=
   if bmlenB % bsz s ≠ 0 ∨ bmoffB % bsz s ≠ 0 ∨ bmoffB % s.aunit ≠ 0 then (s, .notAligned)
@@ -287,13 +299,7 @@ def initLw (s : St) (bmoffB bmlenB : Nat) : St × Rc :=
     else
       let oldOff := s.bmoff
       let oldLen := s.bmlen
-      let bits := if oldLen ≠ 0 then s.bits ++ Array.replicate ((bmlenB - oldLen) * 8) false
-                  else Array.replicate (bmlenB * 8) false
-      let s := { s with bits := bits, bmoff := bmoffB, bmlen := bmlenB }
-      let s := { s with bits := setRange s.bits (bmoffB / bsz s) (bmlenB / bsz s) true }
-      let s := if oldLen = 0 then { s with bits := setRange s.bits 0 (hdrBlk s) true } else s
-      let s := loadTree s
-      let s := { s with saved := s.stats }    -- `_fsm_write_meta_lw`
+      let s := installBitmap s bmoffB bmlenB
       if oldLen ≠ 0 then deallocLw s (oldOff / bsz s) (oldLen / bsz s) else (s, .ok)
 
 /-- `_fsm_resize_fsm_bitmap_lw` -/
